@@ -53,6 +53,12 @@ func (m *c02Mon) principal(s *cdpSnap) map[string]*big.Int {
 			out[p.Out.Denom].Add(out[p.Out.Denom], a.Out)
 		}
 	}
+	// debt registered for emergency redemption (the vaults of an app in shutdown are gone, their debt still circulates)
+	for k, amt := range s.EsmDebt {
+		if as := m.u.byID[k.Asset]; as != nil && out[as.Denom] != nil {
+			out[as.Denom].Add(out[as.Denom], amt.BigInt())
+		}
+	}
 	return out
 }
 
@@ -186,6 +192,10 @@ func TestC02(t *testing.T) {
 		cfg := cdpCfg{priceMoves: run%2 == 1, bids: run%2 == 1, lockers: false, unsolicited: false, liquidateMsg: run%2 == 1, reserve: run%2 == 1}
 		r := newCdpRunner(u, rnd, rec, cfg, newC02Mon(u, rec))
 		r.run(cdpSteps())
+		// emergency shutdown of one app at the end of every second run
+		if variant%2 == 0 {
+			r.esmPhase(u.cdpApps[(variant/2)%len(u.cdpApps)])
+		}
 		if run == 0 {
 			rec.Sample(map[string]interface{}{"variant": variant, "oplog_tail": r.tail(10)})
 		}
